@@ -96,4 +96,11 @@ def tailOk : List StmtKind → Bool
   | .ret :: _ => true
   | .other :: ks => tailOk ks
 
+/-- contents of a pool (object identities, with multiplicity) after a sequence of events -/
+def poolAfter : List PEv → List Nat → List Nat
+  | [], pool => pool
+  | .put id :: tr, pool => poolAfter tr (id :: pool)
+  | .get id :: tr, pool => poolAfter tr (pool.erase id)
+  | _ :: tr, pool => poolAfter tr pool
+
 end Canvas.C20
